@@ -75,13 +75,14 @@ Definition render_wt (c : ctx) (w : wterm) : res string :=
       Ok (if wa c then alias_sql c (q c) s alias else s)
   | WSubq sq_ alias => render_subq c (wa c) (subq c) sq_ alias
   | WInSub t sq_ negated alias =>
-      a <- render (set_subq c false) t ;; b <- render_subq c (wa c) true sq_ None ;;
-      Ok (alias_sql c (q c) (a ++ " " ++ (if negated then "NOT " else "") ++ "IN " ++ b) alias)
+      (* as TIn: term and container no longer inherit with_alias; a predicate operand gets its own parentheses *)
+      a <- render (opc SInTerm t (set_wa (set_subq c false) false)) t ;; b <- render_subq (set_wa c false) false true sq_ None ;;
+      Ok (alias_sql c (q c) (opnd SInTerm t a ++ " " ++ (if negated then "NOT " else "") ++ "IN " ++ b) alias)
   | WCmpSub cm l sq_ alias =>
       let c' := set_wa c false in
-      a <- render c' l ;; b <- render_subq c' false (subq c) sq_ None ;;
-      let s := a ++ cmp_text cm ++ b in
-      Ok (if wa c then alias_sql c None s alias else s)
+      a <- render (opc SCmpL l c') l ;; b <- render_subq c' false (subq c) sq_ None ;;
+      let s := opnd SCmpL l a ++ cmp_text cm ++ b in
+      Ok (if wa c then alias_sql c (q c) s alias else s)
   | WExists sq_ => b <- render_subq c (wa c) (subq c) sq_ None ;; Ok ("EXISTS " ++ b)
   | WValue t alias => a <- render c t ;; Ok (alias_sql c (q c) a alias)
   | WAtTz f zone alias => a <- render c f ;; Ok (alias_sql c (q c) (a ++ " AT TIME ZONE '" ++ zone ++ "'") alias)
@@ -365,7 +366,8 @@ Definition expected_visited : list (ctor * slot) :=
    (KPeriod, S_end); (KAll, S_term); (KAgg, S__filters); (KAnalytic, S__filters); (KAnalytic, S__partition);
    (KAnalytic, S__orderbys); (KExtract, S_field); (KExists, S_container); (KQuery, S__updates); (KClickHouse, S__updates);
    (* visited since 1c7b7d2, 2459d05, 842179f, 0399ee8, e9a97c9, 1465503 (and the dialect builders' inherited slots) *)
-   (KValue, S_value); (KAtTz, S_field); (KClickHouse, S__distinct_on); (KPostgres, S__using); (KPostgres, S__from); (KPostgres,
+   (KValue, S_value); (KAtTz, S_field); (KClickHouse, S__distinct_on); (KPostgres, S__using);
+   (KChHasAny, S__left_array); (KChHasAny, S__right_array); (KChArrayFn, S__array); (KChToFixed, S__field); (KPostgres, S__from); (KPostgres,
    S__insert_table); (KPostgres, S__update_table); (KPostgres, S__with); (KPostgres, S__selects); (KPostgres,
    S__columns); (KPostgres, S__values); (KPostgres, S__wheres); (KPostgres, S__prewheres); (KPostgres, S__groupbys);
    (KPostgres, S__havings); (KPostgres, S__orderbys); (KPostgres, S__joins); (KPostgres, S__updates); (KPostgres,
